@@ -97,10 +97,24 @@ def expected(desc):
     return "accepted"
 
 
-def check(desc):
-    """-> None | (match, details)"""
+def check(desc, prebind=False):
+    """-> None | (match, details).  prebind: the edge objects have already been used for an earlier Graph over *other*
+    Vertex objects with the same ids (the constructor must bind to the vertices it is given now)"""
     want = expected(desc)
     edges, verts = build(desc)
+    if prebind:
+        _, other = build(desc)
+        other = other[::-1]
+        for e, v0 in zip(edges, other):
+            pass
+        try:
+            Graph(edges, other)
+        except Exception:  # noqa: BLE001
+            # even if that construction failed, hand-bind look-alikes (a caller may pass pre-filled `vertices`)
+            by = {v.id: v for v in other}
+            for e in edges:
+                if all(i in by for i in e.vertex_ids):
+                    e.vertices = [by[i] for i in e.vertex_ids]
     try:
         g = Graph(edges, verts)
         got = "accepted"
@@ -198,11 +212,12 @@ def search(seed, n):
         orders.append(sh)
         for order in orders:
             d = dict(desc, vertices=order)
-            ev += 1
-            r = check(d)
-            if r and r[0] not in seen:
-                seen.add(r[0])
-                found.append(dict(match=r[0], details=r[1], desc=d))
+            for prebind in (False, True):
+                ev += 1
+                r = check(d, prebind=prebind)
+                if r and r[0] not in seen:
+                    seen.add(r[0])
+                    found.append(dict(match=r[0], details=dict(r[1], edges_previously_bound=prebind), desc=d, prebind=prebind))
         if len(found) >= 5:
             break
     return dict(found=found, evaluations=ev, expected_distribution=stats)
@@ -223,7 +238,7 @@ def replay(rep):
     warnings.filterwarnings("ignore")
     print("graph description:", json.dumps(w["desc"])[:1500])
     print("documented rule expects:", expected(w["desc"]), "  recorded:", w["match"], w.get("details"))
-    r = check(w["desc"])
+    r = check(w["desc"], prebind=bool(w.get("prebind")))
     print("now:", r)
     print("REPRODUCED" if r else "not reproduced on the current tree")
     return 1 if r else 0
